@@ -3,8 +3,10 @@
 Monitor: offline trace checker.  The real server is driven through edit histories of a document and its
 conftest files under generated pyproject.toml variants (all subsets of disabled codes; valid, partially
 invalid, malformed, absent).  After every open/change the last publishDiagnostics notification received
-for that document is compared with the findings obtained by replaying the same analysis sequence in the
-library harness and calling the three collectors, minus the codes the configuration disables.
+for that document is compared with the findings for the latest content: a cold library index of the workspace
+on disk plus the open buffers (changed document analysed last), asked through the three collectors, minus the
+codes the configuration disables.  (Replaying the same history in the library instead would share any stale
+cache with the server and hide it.)  Some steps send two versions back to back without waiting.
 """
 import itertools, json, os, shutil
 
@@ -54,7 +56,7 @@ def pyproject_variants():
     return out
 
 
-def doc_versions(rng, n):
+def doc_versions(rng, n, directed=False):
     """sequence of (target, text, label); target in doc/pkg_conf/root_conf"""
     parts = {"und": False, "und2": False, "cycle": False, "self": False, "mismatch": False, "mismatch_ok": False,
              "mismatch2": False, "mismatch_h": False, "mismatch_h2": False}
@@ -85,7 +87,28 @@ def doc_versions(rng, n):
         if parts["und2"]:
             s += "def test_und2(fa):\n    return fd(fc)\n\n"
         return s
+    def burst():
+        # two versions back to back, a slow one (much larger, with one more / one fewer finding) first: the last publish
+        # must belong to the last text
+        k = rng.choice(["und", "cycle", "self", "mismatch", "und2"])
+        parts[k] = not parts[k]
+        big = render() + "".join(f"def test_pad{i}(fa, fd):\n    x{i} = [fa, fd]\n    return x{i}\n\n" for i in range(2500))
+        parts[k] = not parts[k]
+        steps.append(("doc", big, "burst_first"))
+        steps.append(("doc", render(), "burst_second"))
     steps.append(("doc", render(), "open"))
+    if directed:
+        # a dependency that the conftest supplies through its import is renamed in the imported module
+        parts["mismatch_h"] = True
+        steps.append(("doc", render(), "add_mismatch_h"))
+        hname[0] = "fh2"
+        steps.append(("helpers", helpers_text("fh2"), "helpers_rename_to_fh2"))
+        steps.append(("doc", render(), "resend_after_helpers_edit"))
+        parts["mismatch_h2"] = True
+        steps.append(("doc", render(), "add_mismatch_h2"))
+        hname[0] = "fh"
+        steps.append(("helpers", helpers_text("fh"), "helpers_rename_to_fh"))
+        steps.append(("doc", render(), "resend_after_helpers_edit"))
     for _ in range(n):
         r = rng.random()
         if r < 0.55:
@@ -103,13 +126,7 @@ def doc_versions(rng, n):
             steps.append(("helpers", helpers_text(hname[0]), "helpers_rename_to_" + hname[0]))
             steps.append(("doc", render(), "resend_after_helpers_edit"))
         elif r < 0.84:
-            # two versions back to back (a slow one first): the last publish must belong to the last text
-            k = rng.choice(list(parts))
-            parts[k] = not parts[k]
-            big = render() + "".join(f"def test_pad{i}(fa, fd):\n    x{i} = [fa, fd]\n    return x{i}\n\n" for i in range(1500))
-            parts[k] = not parts[k]
-            steps.append(("doc", big, "burst_first"))
-            steps.append(("doc", render(), "burst_second"))
+            burst()
         elif r < 0.88:
             pkg_has_fd = not pkg_has_fd
             steps.append(("pkg_conf", PKG_CONF if pkg_has_fd else HDR, "pkg_conf_" + ("add_fd" if pkg_has_fd else "remove_fd")))
@@ -118,6 +135,7 @@ def doc_versions(rng, n):
             root_has_fa = not root_has_fa
             steps.append(("root_conf", ROOT_CONF if root_has_fa else HDR + fx("fb") + fx("fc", scope="module"), "root_conf_toggle_fa"))
             steps.append(("doc", render(), "resend_after_conftest_edit"))
+    burst()
     return steps
 
 
@@ -153,8 +171,8 @@ def run(ctx):
     n_sessions = len(variants) if quick else len(variants) * 12
     steps_n = 8 if quick else 25
     ctx.rule = ("edit histories (add/remove undeclared uses, same-file cycles, self-dependency, scope mismatch; break/repair; "
-                "resend; conftest edits) x pyproject.toml variants (all subsets of disabled codes, malformed, wrong types, unknown "
-                "codes + invalid globs, duplicates, absent); last published set per change vs library collectors; distinct = "
+                "resend; conftest and imported-module edits; two versions back to back) x pyproject.toml variants (all subsets of disabled codes, malformed, wrong types, unknown "
+                "codes + invalid globs, duplicates, absent); last published set per change vs the collectors on a cold index of the latest content; distinct = "
                 "(config variant, operation, set of codes published)")
     vh = VH(vh_bin(), locklog=os.path.join(ctx.scratch_root, "lock_vh.log"))
     try:
@@ -190,17 +208,20 @@ def run(ctx):
                     if not {"fa", "fd"} <= syms:
                         ctx.violation({"kind": "invalid-entry-disabled-the-rest", "variant": label}, {"symbols": sorted(syms)}, files=files)
                 opened = set()
-                steps = doc_versions(ctx.rng, steps_n)
+                cur, last_valid = {}, {}
+                steps = doc_versions(ctx.rng, steps_n, directed=(si % 2 == 0))
                 hist = []
                 for (tgt, text, op) in steps:
                     p = paths[tgt]
                     before = srv.seq
                     (srv.did_change if tgt in opened else srv.did_open)(p, text)
                     opened.add(tgt)
-                    vh.call(op="analyze", db=db, path=p, text=text)
                     hist.append((tgt, op))
+                    cur[tgt] = text
+                    if vh.call(op="parses", text=text)["ok"]:
+                        last_valid[tgt] = text
                     if op == "burst_first":
-                        continue                      # no waiting: the next version follows immediately
+                        continue                      # no waiting, no other work: the next version follows immediately
                     got = srv.wait_diagnostics(p, before, timeout=20)
                     if op == "burst_second":
                         # both versions publish; quiesce (a request is answered after the notifications before it were
@@ -213,6 +234,16 @@ def run(ctx):
                     if got is None:
                         ctx.violation({"kind": "no-publish-after-change", "variant": label, "op": op}, {"history": hist}, files=files | {"doc.py": text})
                         continue
+                    # the findings for the latest content: a cold index of the workspace on disk + the open buffers (last valid
+                    # text, then the current one if it does not parse), the changed document analysed last
+                    vh.call(op="drop_db", db=db)
+                    db = vh.new_db()
+                    vh.call(op="scan_config", db=db, root=root)
+                    for t_ in [x for x in cur if x != tgt] + [tgt]:
+                        if t_ in last_valid:
+                            vh.call(op="analyze", db=db, path=paths[t_], text=last_valid[t_])
+                        if cur[t_] != last_valid.get(t_):
+                            vh.call(op="analyze", db=db, path=paths[t_], text=cur[t_])
                     exp = expected_from_library(vh, db, p, disabled)
                     gotn = sorted((norm_diag(d) for d in got), key=str)
                     if gotn != exp:
